@@ -3,7 +3,7 @@ CONSTANTS
   FmlaErrorRead = TRUE
   RowSet = {0, 1, 2, 3, 9, 100, 65535, 65536, 1048574, 1048575}
   ColSet = {0, 1, 2, 25, 26, 127, 128, 255, 256, 16382, 16383}
-  Vals = {1,2,3,4,5,6,7,8,9,10,11,12,13,14,15,16,17,18,19,20,21,22,23,24,25,26,27,28,29,30,31,32,33,34}
+  Vals = {1,2,3,4,5,6,7,8,9,10,11,12,13,14,15,16,17,18,19,20,21,22,23,24,25,26,27,28,29,30,31,32,33,34,35,36}
   Ign = "lens"
   MaxRows = 6
   MaxCells = 6
